@@ -87,6 +87,13 @@ def gen_cases(ctx):
                 dt = rng.choice([1e-8, -3e-9, 2.5e-10, 1e-12])
                 mk("evolve_vs_steps", n, terms, dt, order=order, k=rng.choice([2, 3, 7, 20]))
                 mk("evolve", n, terms, dt, order=order, k=rng.choice([2, 5, 40]))
+    # a constant term (a string without factors: an energy offset) among the terms: it contributes its phase e^{-i c dt} in every step
+    for n in (1, 2, 3):
+        for order in (1, 2):
+            const = {"ops": [], "coef": [float2bits(rng.choice([0.9, -1.3, 2.1])), float2bits(0.0)]}
+            others = [dict(rand_string(rng, n, allow_empty=False), coef=[float2bits(rng.uniform(-1, 1)), float2bits(0.0)]) for _ in range(rng.randrange(1, 3))]
+            for terms in (others + [const], [const] + others, [const]):
+                mk("step", n, terms, 0.7, order=order); mk("evolve", n, terms, 0.35, order=order, k=2)
     # terms that were used once (and cloned) before their last factor was added
     for n in (2, 3):
         for order in (1, 2):
